@@ -94,9 +94,12 @@ ExtText(name) == IF name = "p1" THEN "x" ELSE " y "
 External(T, t) == IF ExtDefined(T.lit[t]) THEN NormStr(T, t, Chars(ExtText(T.lit[t]))) ELSE FailV
 
 \* --- typed sources (results of custom functions): the conversion matrix of resultTypeConversion
-JsKind(lit) == CASE lit \in {"int:7"} -> "int" [] lit \in {"float:1.5"} -> "float" [] lit \in {"bool:true"} -> "bool" [] OTHER -> "str"
+\* ignore_error of a custom_func declaration (optional field ie of T): the function's own error becomes "no value"
+IE(T, t) == IF "ie" \in DOMAIN T THEN T.ie[t] ELSE FALSE
+JsKind(lit) == CASE lit \in {"int:7"} -> "int" [] lit \in {"float:1.5"} -> "float" [] lit \in {"bool:true"} -> "bool"
+                 [] lit = "throw:x" -> "throw" [] OTHER -> "str"
 JsText(lit) == CASE lit = "int:7" -> "7" [] lit = "float:1.5" -> "1.5" [] lit = "bool:true" -> "true" [] lit = "str:1" -> "1"
-                 [] lit = "str:1.5" -> "1.5" [] lit = "str:x" -> "x" [] lit = "str:true" -> "true"
+                 [] lit = "str:1.5" -> "1.5" [] lit = "str:x" -> "x" [] lit = "str:true" -> "true" [] lit = "throw:x" -> "x"
 Num(txt) == <<"i">> \o Chars(txt)
 Cast(k, txt, ty) ==
   CASE ty = "none"    -> (CASE k \in {"int", "float"} -> Num(txt) [] k = "bool" -> <<"b", txt>> [] OTHER -> <<"s">> \o Chars(txt))
@@ -111,7 +114,8 @@ Cast(k, txt, ty) ==
     [] ty = "boolean" -> (CASE k = "bool" -> <<"b", txt>>
                             [] k = "str" /\ txt \in {"1", "true"} -> <<"b", "true">>
                             [] OTHER -> FailV)
-JsConst(T, t) == Cast(JsKind(T.lit[t]), JsText(T.lit[t]), T.ty[t])
+JsConst(T, t) == IF JsKind(T.lit[t]) = "throw" THEN (IF IE(T, t) THEN NilV ELSE FailV)          \* a script that throws
+                 ELSE Cast(JsKind(T.lit[t]), JsText(T.lit[t]), T.ty[t])
 
 \* a composite (object/array) result: empty => omitted unless kept; a type on a composite cannot convert
 NormComposite(T, t, toks, isEmpty, open, close) ==
@@ -228,7 +232,7 @@ DeclText(T, t) ==
   LET ks == TKids(T, t)
       RECURSIVE Cat(_)
       Cat(k) == IF k > Len(ks) THEN <<>> ELSE <<"(">> \o DeclText(T, ks[k]) \o <<")">> \o Cat(k + 1)
-  IN <<T.kind[t], ToString(T.xp[t]), T.ty[t], ToString(T.notrim[t]), ToString(T.keep[t]), T.lit[t]>> \o Cat(1)
+  IN <<T.kind[t], ToString(T.xp[t]), T.ty[t], ToString(T.notrim[t]), ToString(T.keep[t]), T.lit[t], ToString(IE(T, t))>> \o Cat(1)
 
 Queries(T, t) == t # 1 /\ T.xp[t] # 0 /\ ~UnderArray(T, t)            \* xpathQueryNeeded (an xpath_dynamic declaration has no parent)
 
